@@ -17,6 +17,44 @@ from . import lexfacts as LF
 OPEN = {'(': ')', '[': ']', '{': '}'}
 
 
+def separator_obligations(chk, R1, F, lm, lexrel):
+    """Which separators reach the parser: CR LF / LF / `;` at statement level always, `;` also inside brackets, a bare line
+    break inside brackets never.  Returns (rule name, rule model, position, depth attribute) or None."""
+    NL = LF.newline_rule(lm)
+    rm = lm.rules[NL]
+    where = '%s:%d' % (lexrel, rm.rule.line)
+    texts = rm.texts
+    unbounded = texts is None and rm.samples is not None
+    if unbounded:
+        # a rule that takes a whole run of separators: judged on the members of its language with every loop taken at most
+        # twice (each is a text the rule really matches; shortest first, at most 40 of them)
+        texts = set(sorted(rm.samples, key=lambda x: (len(x), x))[:40])
+    need = {'\r\n', '\n', ';'}
+    chk.require(texts is not None and need <= texts, R1, 't_%s alternatives' % NL, where,
+                'matches exactly %s' % sorted(texts) if texts is not None and need <= texts else
+                'the separator rule matches %s; CRLF, LF and `;` must all be separators' % (sorted(texts) if texts else 'an unbounded language'))
+    try:
+        depth = LF.depth_attr(F, lm)
+    except AnalysisError:
+        depth = None          # the rule consults no bracket depth: the expectations below then fail for depth > 0 or depth 0
+    if rm.rule.func is None:
+        chk.bad(R1, 't_%s' % NL, where, 'the separator rule is a plain string rule: line breaks inside brackets separate statements')
+        return None
+    tparam = ('param', rm.rule.func.args.args[0].arg)
+    for text in sorted(texts or []):
+        for d in (0, 1, 3):
+            ps = LF.specialise(F, lm, NL, text, d, depth)
+            ret = LF.returns(ps, tparam)
+            want = {'token'} if (';' in text or d == 0) else {'nothing'}
+            ok = ret == want
+            chk.require(ok, R1, 't_%s [%r at depth %s]' % (NL, text, '0' if d == 0 else '>0 (%d)' % d), where,
+                        'returns %s' % '/'.join(sorted(ret)) + ('' if ok else '; expected %s: %s' % (
+                            '/'.join(want), 'a line break inside brackets must not separate statements' if want == {'nothing'} else
+                            ('a separator at statement level must reach the parser' if d == 0 else
+                             'a `;` is a separator wherever it stands: inside brackets it has to reach the parser (which rejects it there)'))))
+    return NL, rm, where, depth
+
+
 def check(chk: Check) -> None:
     F = chk.facts
     R1 = chk.rule('C15.R1', 'layout tokens vanish: space and tab are ignored, comments emit nothing and end at the line break, '
@@ -36,6 +74,7 @@ def check(chk: Check) -> None:
     T = C.tables(F)
     TP = C.templates(F)
     lexrel = lm.spec.module.rel
+    _r7(chk)
 
     # --------------------------------------------------------------------- R1
     chk.require(' ' in lm.spec.ignore and '\t' in lm.spec.ignore and '\n' not in lm.spec.ignore, R1, 't_ignore', lexrel,
@@ -56,32 +95,10 @@ def check(chk: Check) -> None:
     # ended - otherwise `x<blank>y` and `xy` (both cut into tokens between x and y) give different token streams.  Decided on
     # the rule regexes by a bounded search: every start u of up to 2 (thorough: 3) characters, one blank, one more character.
     _token_gaps(chk, R1, lm, lexrel)
-    NL = LF.newline_rule(lm)
-    rm = lm.rules[NL]
-    where = '%s:%d' % (lexrel, rm.rule.line)
-    texts = rm.texts
-    need = {'\r\n', '\n', ';'}
-    chk.require(texts is not None and need <= texts, R1, 't_%s alternatives' % NL, where,
-                'matches exactly %s' % sorted(texts) if texts is not None and need <= texts else
-                'the separator rule matches %s; CRLF, LF and `;` must all be separators' % (sorted(texts) if texts else 'an unbounded language'))
-    try:
-        depth = LF.depth_attr(F, lm)
-    except AnalysisError:
-        depth = None          # the rule consults no bracket depth: the expectations below then fail for depth > 0 or depth 0
-    if rm.rule.func is None:
-        chk.bad(R1, 't_%s' % NL, where, 'the separator rule is a plain string rule: line breaks inside brackets separate statements')
+    sep = separator_obligations(chk, R1, F, lm, lexrel)
+    if sep is None:
         return
-    tparam = ('param', rm.rule.func.args.args[0].arg)
-    for text in sorted(texts or []):
-        for d in (0, 1, 3):
-            ps = LF.specialise(F, lm, NL, text, d, depth)
-            ret = LF.returns(ps, tparam)
-            want = {'token'} if (text == ';' or d == 0) else {'nothing'}
-            ok = ret == want
-            chk.require(ok, R1, 't_%s [%r at depth %s]' % (NL, text, '0' if d == 0 else '>0 (%d)' % d), where,
-                        'returns %s' % '/'.join(sorted(ret)) + ('' if ok else '; expected %s: %s' % (
-                            '/'.join(want), 'a line break inside brackets must not separate statements' if want == {'nothing'} else
-                            'a separator at statement level must reach the parser')))
+    NL, rm, where, depth = sep
     # the token type stays the separator terminal
     if rm.type_expr is not None:
         chk.bad(R1, 't_%s type' % NL, where, 'the separator rule re-types its token')
@@ -321,6 +338,42 @@ def check(chk: Check) -> None:
         good = fd.get(nf, ())[:2] == ('tok', '1') and fd.get(af, ())[:2] == ('symlist', '3')
         chk.require(good, R6, 'template ' + t.key, '%s:%d' % (g.module.rel, t.prod.line),
                     'call(name = NAME, args = the argument list as written): f(r, a) and r.f(a) coincide' if good else 'plain call builds %s' % t.show())
+
+
+def _r7(chk: Check) -> None:
+    """The equivalences above are decided on the lexer rules and the grammar.  They are equivalences of program texts only if the
+    lexer is given the program text: a pass that rewrites the text first (line-end normalisation, stripping, re-joining) is a
+    second lexer the rules know nothing about."""
+    from .c11 import _is_ply_call, PARSER
+    F = chk.facts
+    R7 = chk.rule('C15.R7', 'what is lexed is the text: SqParser.parse and list_names hand PLY their text argument itself - no '
+                            'rewriting pass sits between the caller and the rules that R1-R6 judge', floor=2)
+    for mn in ('parse', 'list_names'):
+        q = PARSER + '.' + mn
+        if q not in F.functions:
+            continue
+        fi = F.func(q)
+        selft = ('param', om.self_param(F, q))
+        src = ('param', fi.node.args.args[1].arg)
+        problems = []
+        n = 0
+        for p in SymExec(F, fi).run():
+            for e in p.events:
+                if e.kind != 'call' or not _is_ply_call(e, selft):
+                    continue
+                f = freeze(e.func)
+                if f[2] == 'input':
+                    n += 1
+                    if freeze(e.args) != (src,):
+                        problems.append('`%s` feeds the lexer %s, not the text it was given' % (e.text(), show(freeze(e.args)[0]) if e.args else 'nothing'))
+                elif f[2] == 'parse':
+                    n += 1
+                    kw = dict(freeze(e.kwargs))
+                    inp = kw.get('input', freeze(e.args)[0] if e.args else None)
+                    if inp != src:
+                        problems.append('`%s` parses %s, not the text it was given: the rewriting is a layout rule of its own (which characters '
+                                        'it treats as line ends, inside strings and comments too)' % (e.text(), show(inp) if inp else 'nothing'))
+        chk.require(not problems and n, R7, q, fi.where, '; '.join(sorted(set(problems))[:2]) or '%d call(s) into PLY, each with the text argument itself' % n)
 
 
 def _regex_alphabet(lm) -> List[str]:
